@@ -25,6 +25,8 @@ static std::vector<Comp> menu()
   m.push_back({"dihedral", " dihedral {\n group1 { atomNumbers 1 }\n group2 { atomNumbers 2 3 }\n group3 { atomNumbers 4 }\n group4 { atomNumbers 5 6 }\n }\n", false});
   m.push_back({"gyration", " gyration {\n atoms { atomNumbers 1 2 3 4 5 }\n }\n", false});
   m.push_back({"rmsd", " rmsd {\n atoms { atomNumbers 1 2 3 4 5 }\n refPositions (0, 0, 0) (1.4, 0.1, 0) (0.3, 1.5, 0.2) (-0.5, 0.7, 1.5) (1.2, -0.9, 0.8)\n }\n", true});
+  // the reference lists atoms 1 and 2 exchanged; the permuted copy declared with atomPermutation is the one that matches
+  m.push_back({"rmsd/atomPermutation-is-the-best-match", " rmsd {\n atoms { atomNumbers 1 2 3 4 5 }\n refPositions (1.4, 0.1, 0) (0, 0, 0) (0.3, 1.5, 0.2) (-0.5, 0.7, 1.5) (1.2, -0.9, 0.8)\n atomPermutation 2 1 3 4 5\n }\n", true});
   m.push_back({"eigenvector", " eigenvector {\n atoms { atomNumbers 1 2 3 4 5 }\n refPositions (0, 0, 0) (1.4, 0.1, 0) (0.3, 1.5, 0.2) (-0.5, 0.7, 1.5) (1.2, -0.9, 0.8)\n"
                               " vector (0.3, 0.1, -0.2) (-0.4, 0.2, 0.1) (0.1, -0.5, 0.3) (0.2, 0.3, -0.1) (-0.2, -0.1, -0.1)\n }\n", true});
   m.push_back({"distance-minus-distance", " distance {\n componentCoeff 1.0\n group1 { atomNumbers 1 2 }\n group2 { atomNumbers 3 }\n }\n distance {\n componentCoeff -1.0\n group1 { atomNumbers 4 }\n group2 { atomNumbers 5 6 }\n }\n", false});
